@@ -106,16 +106,66 @@ def expr_src(e):
 _QCACHE = {}
 
 
+FIELDS = ["x", "y", "z", "c", "flag"]
+
+
+def expr_rec(e, rec):
+    """the expression as Python source over a record of the given representation:
+    tuple d[i], dict d["x"], attribute d.x, scalar x (field 0 only), or bare names (string form)"""
+    t = e[0]
+    if t == "f":
+        n = FIELDS[e[1]]
+        return {"tuple": "d[%d]" % e[1], "dict": 'd["%s"]' % n, "attr": "d.%s" % n,
+                "scalar": "x", "names": n}[rec]
+    if t == "c":
+        # a plain literal (repr round-trips exactly); the string form must not mention other names
+        assert float(repr(float(e[1]))) == float(e[1])
+        return "(%r)" % float(e[1]) if rec == "names" else "float.fromhex(%r)" % float(e[1]).hex()
+    if t in "+-*<":
+        return "(%s %s %s)" % (expr_rec(e[1], rec), t, expr_rec(e[2], rec))
+    raise ValueError(e)
+
+
+def mk_src(form, e, rec, fname="myfn"):
+    """the bare object a user would pass: a lambda, a def or a string expression"""
+    if form == "str":
+        return expr_rec(e, "names")
+    arg = "x" if rec == "scalar" else "d"
+    body = expr_rec(e, rec)
+    env = {"float": float}
+    if form == "def":
+        exec("def %s(%s):\n    return %s\n" % (fname, arg, body), env)
+        return env[fname]
+    return eval("lambda %s: %s" % (arg, body), env)
+
+
+def apply_wops(obj, wops):
+    for w in wops:
+        if w == "ser":
+            obj = hg.util.serializable(obj)
+        elif w == "cached":
+            obj = hg.util.cached(obj)
+        else:
+            obj = hg.util.named(w[1], obj)
+    return obj
+
+
 def mkq(q):
-    """q = {"name": str|None, "id": int, "e": expr}; equal id => same code object"""
+    """q = {"name": str|None, "id": int, "e": expr}; equal id => same code object.
+    Optional (C17): "form" lam|def|str, "rec" record representation, "fname", "wops" wrappers in
+    the order they are applied ("name" must then be the resulting name)"""
     if q is None:
         return identity
-    key = (q["name"], q["id"], repr(q["e"]))
+    key = (q["name"], q["id"], repr(q["e"]), q.get("form"), q.get("rec"), q.get("fname"), repr(q.get("wops")))
     if key in _QCACHE:
         return _QCACHE[key]
+    if "form" in q:
+        out = apply_wops(mk_src(q["form"], q["e"], q.get("rec", "tuple"), q.get("fname", "myfn")),
+                         q.get("wops", ["ser"]))
+        assert out.name == q["name"], (out.name, q["name"])
+        _QCACHE[key] = out
+        return out
     src = "lambda d: " + expr_src(q["e"])
-    # distinct ids must have distinct bytecode: UserFcn equality compares co_code; append a no-op
-    # constant selection that depends on id so that different ids differ in code
     f = eval(src, {"_raise": _raise, "float": float})
     out = hg.util.named(q["name"], f) if q["name"] is not None else hg.util.serializable(f)
     _QCACHE[key] = out
@@ -682,3 +732,84 @@ class IdMachine(Machine):
                 ob = ob + [-777] + self.pids()
         self.snaps.append([snap(h) for h in self.pool])
         return ob
+
+
+# ----------------------------------------------------------------------------- C17: wrappers
+def to_record(d, rec):
+    import types as _types
+    if rec == "tuple":
+        return tuple(d)
+    if rec == "scalar":
+        return d[0]
+    m = dict(zip(FIELDS, d))
+    return m if rec == "dict" else _types.SimpleNamespace(**m)
+
+
+def tok_value(v):
+    if isinstance(v, (bool,)) or type(v).__name__ == "bool_":
+        return [1, 1 if v else 0]
+    if isinstance(v, str):
+        return [2] + tok_str(v)
+    if v is None:
+        return [3]
+    return [0] + ftok(float(v))
+
+
+class FcnMachine(Machine):
+    """base ops on trees whose quantities come in every wrapper form, filled with records of the
+    representation named in the op; plus wrapper scenarios"""
+
+    def step(self, op):
+        t = op[0]
+        if t == "fill":
+            rec = op[4] if len(op) > 4 else "tuple"
+            a = self.pool[op[1]]
+            try:
+                a.fill(to_record(op[2], rec), op[3])
+                r = 0
+            except Exception as e:  # noqa: BLE001
+                self.exc.append(exc_class(e))
+                r = 1
+            return [r] + snap(a)
+        if t == "wrap":
+            _, sd, wops, ds, rec = op
+            try:
+                u = apply_wops(mk_src(sd["form"], sd["e"], rec, sd.get("fname", "myfn")), wops)
+            except ValueError as e:
+                self.exc.append(exc_class(e))
+                return [1]
+            if not isinstance(u, hg.util.UserFcn):
+                return [2]
+            out = [0, 1 if isinstance(u, hg.util.CachedFcn) else 0] + tok_optstr(u.name)
+            # the same function unwrapped, called on fresh copies of the records: the reference
+            raw = mk_src(sd["form"] if sd["form"] != "str" else "lam", sd["e"], rec if sd["form"] != "str" else rec)
+            if not hasattr(self, "wraplog"):
+                self.wraplog = []
+            log = []
+            for d in ds:
+                try:
+                    v = u(to_record(d, rec))
+                    out += [0] + tok_value(v)
+                    got = ("v", tok_value(v))
+                except Exception as e:  # noqa: BLE001
+                    self.exc.append(exc_class(e))
+                    out += [1]
+                    got = ("raise",)
+                try:
+                    w = raw(to_record(d, rec))
+                    ref = ("v", tok_value(w))
+                except Exception:  # noqa: BLE001
+                    ref = ("raise",)
+                log.append((got, ref))
+            self.wraplog.append(log)
+            return out
+        if t == "feq":
+            _, sd1, w1, sd2, w2, rec = op
+            try:
+                a = apply_wops(mk_src(sd1["form"], sd1["e"], rec, sd1.get("fname", "myfn")), w1)
+                b = apply_wops(mk_src(sd2["form"], sd2["e"], rec, sd2.get("fname", "myfn")), w2)
+                return [1 if a == b else 0]
+            except Exception as e:  # noqa: BLE001
+                self.exc.append(exc_class(e))
+                return [2]
+        return super().step(op)
